@@ -34,6 +34,7 @@ CONSTANTS Trees,        \* set of [files : Seq(file description), btasks : Seq(S
           TaskArgs,     \* the -t arguments offered to restore / remodel (sequences of task names)
           OpsIds,       \* ids of the remodel operation lists
           MaxCrash, MaxCreate, MaxHist,
+          MaxHistUnlisted,  \* history operations allowed while the manager does not list the backup
           RECORD_FIRST, OVERWRITE, READ_LIVE
 
 Name == "b1"
@@ -230,7 +231,7 @@ Reopen == /\ pc = "dead"
           /\ Log(<<>>)
 
 \* ---- history after a creation attempt -------------------------------------------------------------
-CanOp == pc = "idle" /\ creates > 0 /\ nops < (IF Listed THEN MaxHist ELSE IF MaxHist > 0 THEN 1 ELSE 0)
+CanOp == pc = "idle" /\ creates > 0 /\ nops < (IF Listed THEN MaxHist ELSE MaxHistUnlisted)
 
 Modify(i) == /\ CanOp
              /\ data' = [data EXCEPT ![i] = Cont(i, nmod + 1, <<>>, Chunks)]
